@@ -490,6 +490,25 @@ func (s *GenSpec) Build(env *BuildEnv) *rapid.Generator[any] {
 		})
 	case "make":
 		return makeTypes[s.Type].build()
+	case "recdef":
+		// one Deferred generator value that refers to itself: every level flips nine fair coins and goes one level
+		// deeper unless all come up true (about 500 levels on average, from the bits alone); the value is the depth
+		var rec *rapid.Generator[any]
+		rec = rapid.Deferred(func() *rapid.Generator[any] {
+			return rapid.Custom(func(t *rapid.T) any {
+				stop := true
+				for i := 0; i < 9; i++ {
+					if !rapid.Bool().Draw(t, "b") {
+						stop = false
+					}
+				}
+				if stop {
+					return 0
+				}
+				return rec.Draw(t, "deeper").(int) + 1
+			})
+		})
+		return rec
 	}
 	panic("harness: unknown GenSpec kind " + s.K)
 }
